@@ -31,6 +31,8 @@ type DistLog struct {
 	Witness string `json:"witness"` // what the witness answers for this log
 	Distrib string `json:"distrib"` // what the distributor answers to the request for this log
 	Size    int    `json:"size"`
+	// SameNameAsWitness: the log's key carries the witness's key NAME (other key material)
+	SameNameAsWitness bool `json:"same_name_as_witness,omitempty"`
 }
 
 // DistCase is one DistributeOnce run.
@@ -133,9 +135,9 @@ func (d *distStub) RoundTrip(r *http.Request) (*http.Response, error) {
 
 type stubTimeout struct{}
 
-func (stubTimeout) Error() string   { return "stub: timeout awaiting response headers" }
-func (stubTimeout) Timeout() bool   { return true }
-func (stubTimeout) Temporary() bool { return true }
+func (stubTimeout) Error() string     { return "stub: timeout awaiting response headers" }
+func (stubTimeout) Timeout() bool     { return true }
+func (stubTimeout) Temporary() bool   { return true }
 func (stubTimeout) Is(err error) bool { return err == context.DeadlineExceeded }
 
 type distWitness struct {
@@ -163,6 +165,9 @@ func runDist(c *DistCase) (bool, []string, error) {
 	var classes []string
 	for i, l := range c.Logs {
 		key := vlib.NewKey(fmt.Sprintf("logkey%d", l.KeyIdx), fmt.Sprintf("dlog%d", l.KeyIdx))
+		if l.SameNameAsWitness {
+			key = vlib.NewKey(c.WitnessName, fmt.Sprintf("dlog-samename%d", l.KeyIdx))
+		}
 		lc, err := config.NewLog(l.Origin, key.VKey(), "http://log.example/")
 		if err != nil {
 			return false, nil, fmt.Errorf("harness: %v", err)
@@ -360,11 +365,12 @@ func TestC15(t *testing.T) {
 		n := rapid.IntRange(1, 6).Draw(rt, "nlogs")
 		for i := 0; i < n; i++ {
 			c.Logs = append(c.Logs, DistLog{
-				Origin:  fmt.Sprintf("%s/%d", rapid.SampledFrom([]string{"example.com/log", "rekor.example - 1", "л"}).Draw(rt, "origin"), i),
-				KeyIdx:  rapid.IntRange(0, 2).Draw(rt, "key"),
-				Witness: witnessAnswers[vlib.Uniform(rt, len(witnessAnswers), "wans")],
-				Distrib: distribAnswers[vlib.Uniform(rt, len(distribAnswers), "dans")],
-				Size:    rapid.IntRange(0, 30).Draw(rt, "size"),
+				Origin:            fmt.Sprintf("%s/%d", rapid.SampledFrom([]string{"example.com/log", "rekor.example - 1", "л"}).Draw(rt, "origin"), i),
+				KeyIdx:            rapid.IntRange(0, 2).Draw(rt, "key"),
+				Witness:           witnessAnswers[vlib.Uniform(rt, len(witnessAnswers), "wans")],
+				Distrib:           distribAnswers[vlib.Uniform(rt, len(distribAnswers), "dans")],
+				Size:              rapid.IntRange(0, 30).Draw(rt, "size"),
+				SameNameAsWitness: vlib.Pct(rt, 12, "samename"),
 			})
 		}
 		if vlib.Pct(rt, 30, "multiround") {
